@@ -71,6 +71,34 @@ Fixpoint nofail_op (o : op) {struct o} : bool :=
 Definition nofail_ops (l : list op) : bool := forallb nofail_op l.
 Definition nofail (p : prog) : bool := forallb nofail_ops (p_code p).
 
+(* ---- programs that only use mutexes and cells, without nesting one with-mutex-lock in another ---- *)
+Definition is_chan_op (o : op) : bool :=
+  match o with OPush _ _ | OPop _ | ORange _ | OSelect _ | OClose _ => true | _ => false end.
+(* inside a with-mutex-lock body: no channel operation, no further lock; indices in range *)
+Fixpoint lockfree_op (nm nx : nat) (o : op) {struct o} : bool :=
+  let fix all (l : list op) : bool := match l with [] => true | o' :: l' => lockfree_op nm nx o' && all l' end in
+  match o with
+  | OLock _ _ => false
+  | OCatch body => all body
+  | OLoad x => Nat.ltb x nx
+  | OStore x _ => Nat.ltb x nx
+  | OFail => true
+  | _ => false
+  end.
+Definition lockfree_ops nm nx (l : list op) : bool := forallb (lockfree_op nm nx) l.
+Fixpoint flat_op (nm nx : nat) (o : op) {struct o} : bool :=
+  let fix all (l : list op) : bool := match l with [] => true | o' :: l' => flat_op nm nx o' && all l' end in
+  match o with
+  | OLock m body => Nat.ltb m nm && lockfree_ops nm nx body
+  | OCatch body => all body
+  | OLoad x => Nat.ltb x nx
+  | OStore x _ => Nat.ltb x nx
+  | OFail => true
+  | _ => false
+  end.
+Definition flat_ops nm nx (l : list op) : bool := forallb (flat_op nm nx) l.
+Definition flat (p : prog) : bool := forallb (flat_ops (p_nmutex p) (length (p_mem p))) (p_code p).
+
 (* ---- what the harness can see of one run of a program on the implementation ---- *)
 Record obs := mkO {
   o_crash : bool;                 (* the process died (uncaught error in a routine, Go fatal error) *)
@@ -80,4 +108,39 @@ Record obs := mkO {
   o_lens : list nat               (* (length channel) after quiescence: buffered items *)
 }.
 
-Definition obs_ok (p : prog) (o : obs) : bool := true.
+Definition ev_eqb (a b : ev) : bool :=
+  match a, b with
+  | EvPop c v, EvPop c' v' => Nat.eqb c c' && match v, v' with Some x, Some y => Z.eqb x y | None, None => true | _, _ => false end
+  | EvLoad x z, EvLoad x' z' => Nat.eqb x x' && Z.eqb z z'
+  | _, _ => false
+  end.
+Fixpoint list_eqb {A} (eqb : A -> A -> bool) (a b : list A) : bool :=
+  match a, b with [], [] => true | x :: a', y :: b' => eqb x y && list_eqb eqb a' b' | _, _ => false end.
+
+Definition buffered (ch : chanst) : nat := Nat.min (length (q ch)) (cap ch).
+
+Fixpoint logs_match (rl : list routine) (fin : list bool) (logs : list (list ev)) : bool :=
+  match rl, fin, logs with
+  | [], [], [] => true
+  | r :: rl', f :: fin', l :: logs' =>
+      Bool.eqb (finished r && negb (unw r)) f && (if f then list_eqb ev_eqb (log r) l else true) && logs_match rl' fin' logs'
+  | _, _, _ => false
+  end.
+
+(* state s of the model shows exactly what was observed, and is quiescent (no routine can move) *)
+Definition matches (s : state) (o : obs) : bool :=
+  if o_crash o then existsb crashed (rs s)
+  else negb (existsb crashed (rs s)) && stuck s && logs_match (rs s) (o_fin o) (o_logs o)
+       && list_eqb Z.eqb (mem s) (o_mem o) && list_eqb Nat.eqb (map buffered (chs s)) (o_lens o).
+
+(* ---- S: conditions on an observation that hold on EVERY schedule of the model (Proofs: obs_ok_sound) ---- *)
+Definition all_true (l : list bool) : bool := forallb (fun b => b) l.
+Definition counter_ok (p : prog) (o : obs) (x : nat) : bool :=
+  if existsb (fun m => guarded p x m) (seq 0 (p_nmutex p))
+  then Z.eqb (nth x (o_mem o) 0%Z) (nth x (p_mem p) 0%Z + total_incs p x)%Z
+  else true.
+Definition obs_ok (p : prog) (o : obs) : bool :=
+  if o_crash o then negb (nofail p)                                         (* only a program that can raise may die *)
+  else (if flat p then all_true (o_fin o) else true)                        (* un-nested locks never block for good *)
+       && (if nofail p && all_true (o_fin o)                                (* no lost update *)
+           then forallb (counter_ok p o) (seq 0 (length (p_mem p))) else true).
